@@ -263,7 +263,10 @@ func (h *Handler) SendMessageElement(ctx context.Context, s *xmpp.Session, paylo
 		msg.ID = attr.RandomID()
 	}
 
-	c := make(chan struct{})
+	// The channel has room for the one signal the handler sends after it has
+	// removed the entry, so the handler never waits for this call (which may not
+	// have reached its select yet, or may be gone), and it is never closed.
+	c := make(chan struct{}, 1)
 	h.m.Lock()
 	h.sent[msg.ID] = c
 	h.m.Unlock()
@@ -276,6 +279,9 @@ func (h *Handler) SendMessageElement(ctx context.Context, s *xmpp.Session, paylo
 	err := s.SendElement(ctx, r, msg.StartElement())
 	if err != nil {
 		verifhook.Yield("receipts.senderr")
+		h.m.Lock()
+		delete(h.sent, msg.ID)
+		h.m.Unlock()
 		return err
 	}
 
@@ -288,7 +294,6 @@ func (h *Handler) SendMessageElement(ctx context.Context, s *xmpp.Session, paylo
 		h.m.Lock()
 		delete(h.sent, msg.ID)
 		h.m.Unlock()
-		close(c)
 		return ctx.Err()
 	}
 }
